@@ -461,6 +461,18 @@ where
                 net.borrow_mut().deliver_due();
                 let idx = peers.iter().position(|p| p.id == id).unwrap();
                 step_peer::<C>(&mut peers, idx, o[0] == "tick", sc, now, &truth, out);
+                // the stream of inputs a session sends to a peer or spectator starts at frame 0 (nothing is skipped
+                // before the first packet): checked on what is handed to the network
+                for ((from, to), (start, seen)) in net.borrow_mut().first_input_start.iter_mut() {
+                    if !*seen {
+                        *seen = true;
+                        if *start != 0 {
+                            for label in ["C05", "C06"] {
+                                out.hit(label, "input-stream-starts-late", &scen, &format!("the first input packet {from} sends to {to} starts at frame {start}, not at frame 0: the frames before it are never sent"));
+                            }
+                        }
+                    }
+                }
             }
             "delay" => {
                 let id: Addr = o[1].parse().unwrap();
@@ -515,7 +527,10 @@ where
                 let n: i32 = o[2].parse().unwrap();
                 let p = peers.iter().find(|p| p.id == id).unwrap();
                 let adv = cur_frame(p) - p.mon.marked;
-                let too_far = p.mon.err_counts.get("SpectatorTooFarBehind").copied().unwrap_or(0) > 0;
+                // the recorded finding is about a stream that started properly (at frame 0) and then lost more than a
+                // ring of frames to a fault; a stream that never carried its first frames is something else
+                let started_at_0 = !net.borrow().first_input_start.iter().any(|((_, to), (start, _))| *to == id && *start != 0);
+                let too_far = started_at_0 && p.mon.err_counts.get("SpectatorTooFarBehind").copied().unwrap_or(0) > 0;
                 if !matches!(p.sess, Sess::Dead) && adv < n && too_far {
                     out.hit("C05", "spectator-too-far-behind", &scen, &format!(
                         "spectator {id} fell more than the 60-frame spectator buffer behind during the fault and reports SpectatorTooFarBehind from then on (advanced {adv} frames, current frame {})", cur_frame(p)));
@@ -612,12 +627,12 @@ fn build_injected(toks: &[&str]) -> Option<MsgView> {
         "syncreq" => Body::SyncRequest(toks.get(2).and_then(|m| m.parse().ok()).unwrap_or(777)),
         "keepalive" => Body::KeepAlive,
         "ack" => Body::InputAck(toks.get(2).and_then(|m| m.parse().ok()).unwrap_or(0)),
-        "input" => {
-            // input <magic> <nstatus> <start> <ack> <hexbytes>
+        "input" | "inputdr" => {
+            // input <magic> <nstatus> <start> <ack> <hexbytes>   (inputdr: with the disconnect flag set)
             let nst: usize = toks[2].parse().ok()?;
             Body::Input {
                 status: vec![(false, -1); nst],
-                disconnect_requested: false,
+                disconnect_requested: toks[0] == "inputdr",
                 start_frame: toks[3].parse().ok()?,
                 ack_frame: toks[4].parse().ok()?,
                 bytes: crate::util::unhex(toks[5]),
